@@ -122,7 +122,7 @@ ALLOC_CAP = 1 << 40
 
 def tainted(t, depth=0):
     """does the term depend on anything read from the file (looking through min/max/saturating results)"""
-    if not isinstance(t, tuple) or depth > 40:
+    if not isinstance(t, tuple) or not t or depth > 40:
         return False
     if EM.header_leaf(t):
         return True
